@@ -3,32 +3,46 @@
 From LE Require Import Base Locks Status.
 Open Scope string_scope.
 
+(* After the shapes of the four lists are fixed (at most one store per field), the statement is propositional in a handful
+   of booleans and two three-valued stores: it is decided by cases. *)
+Ltac bool_cases :=
+  repeat match goal with
+         | x : lidv |- _ => destruct x
+         | x : tokv |- _ => destruct x
+         end;
+  cbn in *; try discriminate;
+  repeat match goal with
+         | H : context [if ?c then _ else _] |- _ => is_var c; destruct c; cbn in *; try discriminate
+         | |- context [if ?c then _ else _] => is_var c; destruct c; cbn in *; try discriminate
+         end;
+  repeat match goal with
+         | H : ?g = true -> ?s = false |- _ => is_var g; destruct g; [specialize (H eq_refl); try subst|clear H]
+         end;
+  cbn in *; try discriminate;
+  repeat split; intros; subst; cbn in *; try discriminate; try reflexivity; try assumption; try tauto; try congruence;
+  repeat match goal with
+         | H : ?a = true -> _ /\ _, H' : ?a = true |- _ => destruct (H H'); clear H
+         end; try assumption; try congruence;
+  (* what is left is about a few booleans only *)
+  repeat match goal with x : bool |- _ => destruct x end; cbn in *; try discriminate; try reflexivity; try tauto; try congruence.
+
 Lemma step_inv g s : group_ok g = true -> SInv s -> enabled s g -> SInv (sstep s g).
 Proof.
-  unfold group_ok, SInv, enabled, sstep.
-  destruct g as [fn pos mu ctor guard il st lid unk];
-    cbn [sg_unknown sg_ctor sg_mu sg_guard sg_il sg_st sg_lid ss_il ss_st ss_own].
-  destruct s as [sil sst sown]; cbn [ss_il ss_st ss_own].
+  unfold group_ok, SInv, enabled, sstep, exclusive.
+  destruct g as [fn pos mu ctor guard il st lid tk unk];
+    cbn [sg_unknown sg_ctor sg_mu sg_guard sg_il sg_st sg_lid sg_tok ss_il ss_st ss_own ss_tok].
+  destruct s as [sil sst sown stok]; cbn [ss_il ss_st ss_own ss_tok].
   intros Hok [H1 [H2 H3]] Hen.
-  rewrite !Bool.andb_true_iff in Hok. destruct Hok as [[[[Hu Hex] Hdoc] Hpair] Hlid].
-  destruct il as [|b [|b2 il]]; destruct st as [|x [|x2 st]]; try discriminate Hpair; cbn [last_or last].
-  - (* neither isLeader nor state is stored *)
-    split; [exact H1|]. split; [|exact H3].
-    intros Hl. destruct lid as [|v [|v2 lid]]; [auto| |destruct v; discriminate Hlid].
-    destruct v; cbn [last]; [reflexivity| |]; cbn in Hlid; rewrite (Hen Hlid) in Hl; discriminate Hl.
-  - (* state alone: behind the not-leader guard, to a state other than LEADER *)
-    rewrite Bool.andb_true_iff in Hpair. destruct Hpair as [Hnl Hg].
-    rewrite (Hen Hg) in *.
-    split; [symmetry; apply Bool.negb_true_iff; exact Hnl|].
-    split; [intros Hl; discriminate Hl|].
-    cbn [forallb] in Hdoc. rewrite Bool.andb_true_iff in Hdoc. exact (proj1 Hdoc).
-  - (* isLeader and state together *)
-    apply Bool.eqb_prop in Hpair.
-    split; [exact Hpair|].
-    split.
-    + intros Hb. rewrite Hb in Hlid. destruct lid as [|v [|v2 lid]]; [discriminate Hlid| |destruct v; discriminate Hlid].
-      destruct v; try discriminate Hlid. reflexivity.
-    + cbn [forallb] in Hdoc. rewrite Bool.andb_true_iff in Hdoc. exact (proj1 Hdoc).
+  rewrite !Bool.andb_true_iff in Hok. destruct Hok as [[[[[Hu Hex] Hdoc] Hpair] Hlid] Htok].
+  clear Hu Hex fn pos mu unk.
+  destruct il as [|b [|b2 il]]; destruct st as [|x [|x2 st]]; try discriminate Hpair;
+    destruct lid as [|v [|v2 lid]]; try (destruct b; discriminate Hlid); try discriminate Hlid; try (destruct v; discriminate Hlid);
+    destruct tk as [|k [|k2 tk]]; try (destruct b; discriminate Htok); try discriminate Htok; try (destruct k; discriminate Htok);
+    cbn [last_or last forallb] in *;
+    try (rewrite Bool.andb_true_iff in Hdoc; destruct Hdoc as [Hd1 _]);
+    try (set (lx := is_leader_state x) in *; set (dx := documented_state x) in *; clearbody lx dx);
+    set (ls := is_leader_state sst) in *; set (ds := documented_state sst) in *; clearbody ls ds;
+    bool_cases.
 Qed.
 
 Theorem status_invariant (tbl : list sgroup) :
@@ -61,14 +75,16 @@ Lemma paired_group_establishes g s :
   group_ok g = true -> (exists b, sg_il g = [b]) -> SInv (sstep s g).
 Proof.
   unfold group_ok, SInv, sstep.
-  destruct g as [fn pos mu ctor guard il st lid unk];
-    cbn [sg_unknown sg_ctor sg_mu sg_guard sg_il sg_st sg_lid ss_il ss_st ss_own].
+  destruct g as [fn pos mu ctor guard il st lid tk unk];
+    cbn [sg_unknown sg_ctor sg_mu sg_guard sg_il sg_st sg_lid sg_tok ss_il ss_st ss_own ss_tok].
   intros Hok [b Eb]. subst il.
-  rewrite !Bool.andb_true_iff in Hok. destruct Hok as [[[[Hu Hex] Hdoc] Hpair] Hlid].
+  rewrite !Bool.andb_true_iff in Hok. destruct Hok as [[[[[Hu Hex] Hdoc] Hpair] Hlid] Htok].
   destruct st as [|x [|x2 st]]; try discriminate Hpair. cbn [last_or last].
   apply Bool.eqb_prop in Hpair.
-  split; [exact Hpair|]. split.
-  - intros Hb. rewrite Hb in Hlid. destruct lid as [|v [|v2 lid]]; [discriminate Hlid| |destruct v; discriminate Hlid].
-    destruct v; try discriminate Hlid. reflexivity.
-  - cbn [forallb] in Hdoc. rewrite Bool.andb_true_iff in Hdoc. exact (proj1 Hdoc).
+  cbn [forallb] in Hdoc. rewrite Bool.andb_true_iff in Hdoc. destruct Hdoc as [Hd1 _].
+  split; [exact Hpair|]. split; [|exact Hd1].
+  intros Hb. rewrite Hb in Hlid, Htok. rewrite Hb.
+  destruct lid as [|v [|v2 lid]]; try discriminate Hlid; destruct v; try discriminate Hlid.
+  destruct tk as [|k [|k2 tk]]; try discriminate Htok; destruct k; try discriminate Htok.
+  split; reflexivity.
 Qed.
